@@ -719,3 +719,58 @@ package compiler
 //@   ensures  same: result == def
 //@   loop 0:
 //@     invariant stored: $i >= 0 ==> def.Struct.Fields[$i].Type == lastres("compiler.(*AnonymousEnumToExplicitType).processType", 0) && def.Struct.Fields[$i].Type.Kind != ast.KindEnum
+//
+// anonymous_structs_to_named (Go, Java, PHP, Python: "every struct ... is a named object"). Same shape as the
+// enum pass: processType never hands back a struct - an anonymous struct becomes a reference to a new named
+// object that keeps its nullability and default -, other kinds keep their kind and arrays, maps, unions
+// and structs are handed to their handlers; nested results are stored in place.
+//@ func (*AnonymousStructsToNamed).processStruct
+//@   property C06
+//@   traced
+//@   requires pass != nil && def.Kind == ast.KindStruct
+//@   ensures  named: result.Kind == ast.KindRef && result.Ref != nil && result.Ref.ReferredPkg == pkg && result.Ref.ReferredType == parentName && result.Nullable == def.Nullable && result.Default == def.Default
+//@   ensures  registered: len(pass.newObjects) >= 1 && pass.newObjects[len(pass.newObjects) - 1].Name == parentName && pass.newObjects[len(pass.newObjects) - 1].Type.Kind == ast.KindStruct
+//
+//@ func (*AnonymousStructsToNamed).processType
+//@   property C06
+//@   traced
+//@   requires pass != nil
+//@   ensures  notstruct: result.Kind != ast.KindStruct
+//@   ensures  struct: def.Kind == ast.KindStruct ==> result.Kind == ast.KindRef && returned("compiler.(*AnonymousStructsToNamed).processStruct", pass, pkg, parentName, def, result)
+//@   ensures  kind: def.Kind != ast.KindStruct ==> result.Kind == def.Kind
+//@   ensures  array: def.Kind == ast.KindArray ==> returned("compiler.(*AnonymousStructsToNamed).processArray", pass, pkg, parentName, def, result)
+//@   ensures  map: def.Kind == ast.KindMap ==> returned("compiler.(*AnonymousStructsToNamed).processMap", pass, pkg, parentName, def, result)
+//@   ensures  disjunction: def.Kind == ast.KindDisjunction ==> returned("compiler.(*AnonymousStructsToNamed).processDisjunction", pass, pkg, parentName, def, result)
+//
+//@ func (*AnonymousStructsToNamed).processArray
+//@   property C06
+//@   traced
+//@   requires pass != nil && def.Kind == ast.KindArray
+//@   at-call "compiler.(*AnonymousStructsToNamed).processType" element: $arg0 == pass && $arg3 == old(def.Array.ValueType)
+//@   ensures  same: result == def
+//@   ensures  element: def.Array.ValueType.Kind != ast.KindStruct
+//
+//@ func (*AnonymousStructsToNamed).processMap
+//@   property C06
+//@   traced
+//@   requires pass != nil && def.Kind == ast.KindMap
+//@   ensures  same: result == def
+//@   ensures  value: def.Map.ValueType.Kind != ast.KindStruct
+//
+//@ func (*AnonymousStructsToNamed).processDisjunction
+//@   property C06
+//@   traced
+//@   requires pass != nil && def.Kind == ast.KindDisjunction
+//@   at-call "compiler.(*AnonymousStructsToNamed).processType" branch: $arg0 == pass && $arg3 == old(def.Disjunction.Branches)[$i + 1]
+//@   at-call "compiler.(*AnonymousStructsToNamed).processType" let slot := def.Disjunction.Branches
+//@   ensures  same: result == def
+//@   loop 0:
+//@     invariant stored: $i >= 0 ==> $slot[$i] == lastres("compiler.(*AnonymousStructsToNamed).processType", 0) && $slot[$i].Kind != ast.KindStruct
+//
+//@ func (*AnonymousStructsToNamed).processObject
+//@   property C06
+//@   requires pass != nil
+//@   ensures  same: result.Name == object.Name && result.SelfRef == object.SelfRef
+//@   ensures  top: object.Type.Kind != ast.KindStruct ==> result.Type.Kind == object.Type.Kind
+//@   loop 0:
+//@     invariant stored: $i >= 0 ==> object.Type.Struct.Fields[$i].Type == lastres("compiler.(*AnonymousStructsToNamed).processType", 0) && object.Type.Struct.Fields[$i].Type.Kind != ast.KindStruct
